@@ -15,6 +15,8 @@ def PU (s : PSt) (t : PExpr) (s' : PSt) : Prop := ∃ f, parseUnary T f s = .ok 
 def PP (s : PSt) (t : PExpr) (s' : PSt) : Prop := ∃ f, parsePrimary T f s = .ok t s'
 def PL (close : Tok) (acc : List PExpr) (s : PSt) (r : List PExpr) (s' : PSt) : Prop :=
   ∃ f, parseList T f close acc s = .ok r s'
+def PC (loc : Loc) (acc : List (PExpr × PExpr)) (s : PSt) (t : PExpr) (s' : PSt) : Prop :=
+  ∃ f, parseCase T f loc acc s = .ok t s'
 /-- `parse_unary_operator` followed by `parse_binary_operator_rhs(m, _)` -/
 def PExprAt (m : Int) (s : PSt) (t : PExpr) (s' : PSt) : Prop := ∃ l s1, PU T s l s1 ∧ PR T m l s1 t s'
 
@@ -222,5 +224,101 @@ theorem PL_more {close acc s e s1 s2 r s3} (he : PE T s e s1) (hncl : s1.cur.tok
   rw [hcomma] at hncl
   simp [a, hcomma, hnext, b]
   intro h; exact absurd h hncl
+
+
+/-- `*` in operand position is the wildcard -/
+theorem PU_star {s s1} (hcur : s.cur.tok = .op (.single '*')) (hnext : next s = .ok () s1) :
+    PU T s (.wildcard s.cur.loc) s1 := by
+  refine ⟨1, ?_⟩
+  rw [parseUnary]
+  simp [hcur, hnext]
+
+/-- `count ( DISTINCT a₁ , … )` -/
+theorem PP_call_distinct {s f s1 s2 s3 args s4} (hcur : s.cur.tok = .ident f) (hnext : next s = .ok () s1)
+    (hlp : s1.cur.tok = .lp) (hnext1 : next s1 = .ok () s2) (hc : lowerChars f = "count".toList)
+    (hd : s2.cur.tok = .kw .distinct) (hnext2 : next s2 = .ok () s3) (hnrp : s3.cur.tok ≠ .rp)
+    (hl : PL T .rp [] s3 args s4) : PP T s (.call s1.cur.loc f args (some true)) s4 := by
+  obtain ⟨g, hg⟩ := hl
+  refine ⟨g + 1, ?_⟩
+  rw [parsePrimary]
+  simp [hcur, hnext, hlp, hnext1, hc, hd, hnext2, hnrp, hg]
+
+theorem array_ne_count {sp : List Char} (h : lowerChars sp = "array".toList) : lowerChars sp ≠ "count".toList := by
+  rw [h]; decide
+
+/-- `array [ ]` -/
+theorem PP_array_nil {s sp s1 s2 s3} (hcur : s.cur.tok = .ident sp) (hnext : next s = .ok () s1)
+    (hlsq : s1.cur.tok = .lsq) (ha : lowerChars sp = "array".toList) (hnext1 : next s1 = .ok () s2)
+    (hrsq : s2.cur.tok = .rsq) (hnext2 : next s2 = .ok () s3) :
+    PP T s (.call s1.cur.loc "create_array".toList [] none) s3 := by
+  refine ⟨1, ?_⟩
+  rw [parsePrimary]
+  simp [hcur, hnext, hlsq, ha, hnext1, hrsq, hnext2, PRes.bind]
+
+/-- `array [ a₁ , … ]` -/
+theorem PP_array_cons {s sp s1 s2 args s3} (hcur : s.cur.tok = .ident sp) (hnext : next s = .ok () s1)
+    (hlsq : s1.cur.tok = .lsq) (ha : lowerChars sp = "array".toList) (hnext1 : next s1 = .ok () s2)
+    (hnrsq : s2.cur.tok ≠ .rsq) (hl : PL T .rsq [] s2 args s3) :
+    PP T s (.call s1.cur.loc "create_array".toList args none) s3 := by
+  obtain ⟨g, hg⟩ := hl
+  refine ⟨g + 1, ?_⟩
+  rw [parsePrimary]
+  simp [hcur, hnext, hlsq, ha, hnext1, hnrsq, hg]
+
+/-- `EXTRACT ( part FROM e )` -/
+theorem PP_extract {s s1 s2 part s3 s4 e s5 s6} (hcur : s.cur.tok = .kw .extract) (hnext : next s = .ok () s1)
+    (hlp : s1.cur.tok = .lp) (hnext1 : next s1 = .ok () s2) (hid : s2.cur.tok = .ident part)
+    (hnext2 : next s2 = .ok () s3) (hfrom : s3.cur.tok = .kw .from) (hnext3 : next s3 = .ok () s4)
+    (he : PE T s4 e s5) (hrp : s5.cur.tok = .rp) (hnext5 : next s5 = .ok () s6) :
+    PP T s (.call s2.cur.loc ("timestamp_extract_".toList ++ lowerChars part) [e] none) s6 := by
+  obtain ⟨g, hg⟩ := he
+  refine ⟨g + 1, ?_⟩
+  rw [parsePrimary]
+  simp [hcur, hnext, expectConsume, hlp, hnext1, consumeIdentifier, hid, hnext2, PRes.bind, hfrom, hnext3, hg, hrp, hnext5]
+
+/-- `( a , b , … )` -/
+theorem PP_tuple {s s1 a s2 s3 vs s4} (hcur : s.cur.tok = .lp) (hnext : next s = .ok () s1) (he : PE T s1 a s2)
+    (hcomma : s2.cur.tok = .comma) (hnext2 : next s2 = .ok () s3) (hl : PL T .rp [a] s3 vs s4) :
+    PP T s (.tuple s.cur.loc vs) s4 := by
+  obtain ⟨f, hf⟩ := he; obtain ⟨g, hg⟩ := hl
+  have a1 := fuel_mono_expr T (Nat.le_max_left f g) hf ok_ne_fuel
+  have b1 := fuel_mono_list T (Nat.le_max_right f g) hg ok_ne_fuel
+  refine ⟨max f g + 1, ?_⟩
+  rw [parsePrimary]
+  simp [hcur, hnext, a1, hcomma, hnext2, b1]
+
+/-- the last `WHEN c THEN r` of a CASE, followed by `ELSE e END` -/
+theorem PC_last {loc acc s s1 c s2 s3 r s4 s5 e s6 s7} (hw : s.cur.tok = .kw .when) (hnext : next s = .ok () s1)
+    (hc : PE T s1 c s2) (ht : s2.cur.tok = .kw .then) (hnext2 : next s2 = .ok () s3) (hr : PE T s3 r s4)
+    (hel : s4.cur.tok = .kw .else) (hnext4 : next s4 = .ok () s5) (he : PE T s5 e s6)
+    (hend : s6.cur.tok = .kw .end) (hnext6 : next s6 = .ok () s7) :
+    PC T loc acc s (.case loc (acc ++ [(c, r)]) e) s7 := by
+  obtain ⟨f, hf⟩ := hc; obtain ⟨g, hg⟩ := hr; obtain ⟨k, hk⟩ := he
+  have a1 := fuel_mono_expr T (show f ≤ max f (max g k) by omega) hf ok_ne_fuel
+  have b1 := fuel_mono_expr T (show g ≤ max f (max g k) by omega) hg ok_ne_fuel
+  have c1 := fuel_mono_expr T (show k ≤ max f (max g k) by omega) hk ok_ne_fuel
+  refine ⟨max f (max g k) + 1, ?_⟩
+  rw [parseCase]
+  simp [expectConsume, hw, hnext, a1, ht, hnext2, b1, hel, hnext4, c1, hend, hnext6]
+
+/-- a `WHEN c THEN r` of a CASE that is followed by another WHEN -/
+theorem PC_more {loc acc s s1 c s2 s3 r s4 t s'} (hw : s.cur.tok = .kw .when) (hnext : next s = .ok () s1)
+    (hc : PE T s1 c s2) (ht : s2.cur.tok = .kw .then) (hnext2 : next s2 = .ok () s3) (hr : PE T s3 r s4)
+    (hnel : s4.cur.tok ≠ .kw .else) (hrest : PC T loc (acc ++ [(c, r)]) s4 t s') : PC T loc acc s t s' := by
+  obtain ⟨f, hf⟩ := hc; obtain ⟨g, hg⟩ := hr; obtain ⟨k, hk⟩ := hrest
+  have a1 := fuel_mono_expr T (show f ≤ max f (max g k) by omega) hf ok_ne_fuel
+  have b1 := fuel_mono_expr T (show g ≤ max f (max g k) by omega) hg ok_ne_fuel
+  have c1 := fuel_mono_case T (show k ≤ max f (max g k) by omega) hk ok_ne_fuel
+  refine ⟨max f (max g k) + 1, ?_⟩
+  rw [parseCase]
+  simp [expectConsume, hw, hnext, a1, ht, hnext2, b1, hnel, c1]
+
+/-- `CASE …` -/
+theorem PP_case {s s1 t s'} (hcur : s.cur.tok = .kw .case) (hnext : next s = .ok () s1)
+    (hc : PC T s.cur.loc [] s1 t s') : PP T s t s' := by
+  obtain ⟨f, hf⟩ := hc
+  refine ⟨f + 1, ?_⟩
+  rw [parsePrimary]
+  simp [hcur, hnext, hf]
 
 end Sqlgrep.Parse
